@@ -85,6 +85,7 @@ type machine struct {
 	allEntangled bool
 	scratch  *model
 	domDecided int
+	zipHandles map[*value]bool // zip handle model: archives registered by vZipHandle (open ones are also in openFiles)
 	openFiles map[*value]bool // file-handle model: handles returned by os.Open and not yet closed
 	zipContents map[string]value // zip content model: member name -> content registered by the harness
 	fileContents map[string]value // file content model: file name -> content registered by the harness
